@@ -22,23 +22,27 @@ Section Proofs.
   Variable A : Type.
   Variable raises : A -> bool.
   Variables dflt_b dflt_k : A.
+  Variable cx : ctx.
 
   Notation arg := (arg A).
   Notation kwargs := (kwargs A).
   Notation effect := (effect A).
   Notation run_fn := (run_fn A raises dflt_b dflt_k).
   Notation async_effect := (async_effect A raises dflt_b dflt_k).
+  Notation own_task := (own_task A raises dflt_b dflt_k).
   Notation target_asynq := (target_asynq A raises dflt_b dflt_k).
-  Notation target_call := (target_call A raises dflt_b dflt_k).
-  Notation async_call_effect := (async_call_effect A raises dflt_b dflt_k).
-  Notation invoke := (invoke A raises dflt_b dflt_k).
+  Notation target_call := (target_call A raises dflt_b dflt_k cx).
+  Notation async_call_effect := (async_call_effect A raises dflt_b dflt_k cx).
+  Notation invoke := (invoke A raises dflt_b dflt_k cx).
+  Notation invoke_ctx := (invoke_ctx A raises dflt_b dflt_k cx).
+  Notation task_frame := (task_frame A).
   Notation prepend := (prepend A).
   Notation finish := (finish A).
 
   (* effect of the synchronous path on the full positional list *)
   Definition direct_effect (d : deco) (st : style) (bk : bodykind) (pos : list arg) (kw : kwargs) : effect :=
     match d with
-    | DPair => run_fn SyncBody st BPlain pos kw
+    | DPair => run_fn SyncBody st (BK BPlain RetReturn) (ctx_active cx) pos kw
     | _ => async_effect d st bk pos kw
     end.
 
@@ -76,21 +80,50 @@ Section Proofs.
   Definition with_recv (r : arg) (e : effect) : effect :=
     (map (fun c => match c with CBody t _ a b k => CBody t (Some r) a b k | w => w end) (fst e), snd e).
 
-  Lemma bound_body t st bk r pos kw :
-    st <> SFunc -> run_fn t st bk (r :: pos) kw = with_recv r (run_fn t SFunc bk pos kw).
+  Lemma bound_body t st bk act r pos kw :
+    st <> SFunc -> run_fn t st bk act (r :: pos) kw = with_recv r (run_fn t SFunc bk act pos kw).
   Proof.
     intros Hs. destruct st; try congruence; unfold Dispatch.run_fn, with_recv;
       destruct (bind3 A dflt_b dflt_k pos kw) as [[[a b] k]|]; reflexivity.
   Qed.
 
   (* a function-style body run: no receiver, exactly the parameters Python's binding gives *)
-  Lemma body_sees_binding t bk pos kw :
-    run_fn t SFunc bk pos kw =
+  Lemma body_sees_binding t bk act pos kw :
+    run_fn t SFunc bk act pos kw =
     match bind3 A dflt_b dflt_k pos kw with
     | None => ([], RErr E_TYPEERROR)
     | Some (a, b, k) => ([CBody t None a b k],
-                         if arg_raises A raises a then RErr (900 + tagnum t) else ROk (VBody t a b k (extra bk)))
+                         if arg_raises A raises a then RErr (900 + tagnum t)
+                         else match bret bk with
+                              | RetReturn => ROk (VBody t a b k (extra bk act))
+                              | RetResult => RResult (VBody t a b k (extra bk act))
+                              end)
     end.
+  Proof. reflexivity. Qed.
+
+  (* ---------------------------------------------------------------- every fn body runs in a task of its own *)
+  (* an AsyncTaskResult still in flight: it would finish whichever task frame it reaches next *)
+  Definition res_no_escape (r : res A) : Prop := match r with RResult _ => False | _ => True end.
+
+  Lemma task_frame_no_escape e : res_no_escape (snd (task_frame e)).
+  Proof. destruct e as [c [v|x|v]]; exact I. Qed.
+
+  Lemma own_task_no_escape st bk pos kw : res_no_escape (snd (own_task st bk pos kw)).
+  Proof. apply task_frame_no_escape. Qed.
+
+  (* result(v); return  and  return v  are the same thing for a body that runs in its own task *)
+  Lemma own_task_ret st s pos kw :
+    own_task st (BK s RetResult) pos kw = own_task st (BK s RetReturn) pos kw.
+  Proof.
+    unfold Dispatch.own_task, Dispatch.task_frame, Dispatch.run_fn.
+    destruct st; [| destruct pos as [|r rest] | destruct pos as [|r rest]]; try reflexivity;
+      match goal with |- context [bind3 A dflt_b dflt_k ?p kw] => destruct (bind3 A dflt_b dflt_k p kw) as [[[a b] k]|] end;
+      try reflexivity; cbn; destruct (arg_raises A raises a); reflexivity.
+  Qed.
+
+  (* a plain body that does not look at the active task runs the same in any frame *)
+  Lemma run_fn_plain_act t st r act1 act2 pos kw :
+    run_fn t st (BK BPlain r) act1 pos kw = run_fn t st (BK BPlain r) act2 pos kw.
   Proof. reflexivity. Qed.
 
   (* ---------------------------------------------------------------- classification *)
@@ -105,11 +138,11 @@ Section Proofs.
   Proof. destruct d, b; intros Hv; try discriminate Hv; repeat split. Qed.
 
   Lemma eff_finish s e : eff (finish s e) = e.
-  Proof. destruct e as [c [v|x]]; reflexivity. Qed.
+  Proof. destruct e as [c [v|x|v]]; reflexivity. Qed.
 
   Lemma stat_finish s e :
-    stat (finish s e) = match snd e with RErr _ => SRaised | ROk _ => s end.
-  Proof. destruct e as [c [v|x]]; reflexivity. Qed.
+    stat (finish s e) = match snd e with RErr _ => SRaised | _ => s end.
+  Proof. destruct e as [c [v|x|v]]; reflexivity. Qed.
 
   (* ---------------------------------------------------------------- the forms, in closed form *)
   Section Cell.
@@ -167,17 +200,18 @@ Section Proofs.
   Definition call_tag (c : call A) : option tag :=
     match c with CBody t _ _ _ _ => Some t | CWrap _ _ _ => None end.
 
-  Lemma run_fn_as_sync st bk pos kw :
-    run_fn SyncBody st BPlain pos kw = as_sync (run_fn FnBody st bk pos kw).
+  Lemma run_fn_as_sync st bk act pos kw :
+    run_fn SyncBody st (BK BPlain RetReturn) act pos kw = as_sync (own_task st bk pos kw).
   Proof.
-    unfold Dispatch.run_fn, as_sync.
+    unfold Dispatch.own_task, Dispatch.task_frame, Dispatch.run_fn, as_sync.
     destruct st; [| destruct pos as [|r rest] | destruct pos as [|r rest]]; try reflexivity;
       match goal with |- context [bind3 A dflt_b dflt_k ?p kw] => destruct (bind3 A dflt_b dflt_k p kw) as [[[a b] k]|] end;
-      try reflexivity; cbn; destruct (arg_raises A raises a); reflexivity.
+      try reflexivity; cbn; destruct (arg_raises A raises a); try reflexivity;
+      destruct bk as [s [|]]; reflexivity.
   Qed.
 
-  Lemma run_fn_tags t st bk pos kw :
-    Forall (fun c => call_tag c = Some t) (fst (run_fn t st bk pos kw)).
+  Lemma run_fn_tags t st bk act pos kw :
+    Forall (fun c => call_tag c = Some t) (fst (run_fn t st bk act pos kw)).
   Proof.
     unfold Dispatch.run_fn.
     destruct st; [| destruct pos as [|r rest] | destruct pos as [|r rest]]; try (constructor; fail);
@@ -185,14 +219,18 @@ Section Proofs.
       cbn; repeat constructor.
   Qed.
 
+  Lemma own_task_tags st bk pos kw :
+    Forall (fun c => call_tag c = Some FnBody) (fst (own_task st bk pos kw)).
+  Proof. unfold Dispatch.own_task, Dispatch.task_frame; cbn [fst]. apply run_fn_tags. Qed.
+
   Lemma async_effect_no_sync_body d st bk pos kw :
     Forall (fun c => call_tag c <> Some SyncBody) (fst (async_effect d st bk pos kw)).
   Proof.
-    assert (H0 : Forall (fun c => call_tag c <> Some SyncBody) (fst (run_fn FnBody st bk pos kw))).
-    { eapply Forall_impl; [|apply run_fn_tags]. cbn. intros c H; rewrite H; discriminate. }
+    assert (H0 : Forall (fun c => call_tag c <> Some SyncBody) (fst (own_task st bk pos kw))).
+    { eapply Forall_impl; [|apply own_task_tags]. cbn. intros c H; rewrite H; discriminate. }
     unfold Dispatch.async_effect. destruct d; auto.
     - constructor; [destruct pos as [|[r|a] p]; cbn; discriminate | exact H0].
-    - unfold dup_on_raise. destruct (snd (run_fn FnBody st bk pos kw)); auto.
+    - unfold dup_on_raise. destruct (snd (own_task st bk pos kw)); auto.
       destruct (is_verr e); auto. cbn. apply Forall_app; auto.
     - unfold cpi_guard. destruct pos as [|[r|a] p]; auto. constructor.
   Qed.
@@ -201,8 +239,8 @@ Section Proofs.
     let s := invoke DPair b Sync pos kw bk in
     let a := invoke DPair b AsynqValue pos kw bk in
     eff s = as_sync (eff a) /\
-    stat a = match snd (eff a) with RErr _ => SRaised | ROk _ => SRetFuture end /\
-    stat s = match snd (eff s) with RErr _ => SRaised | ROk _ => SRetValue end /\
+    stat a = match snd (eff a) with RErr _ => SRaised | _ => SRetFuture end /\
+    stat s = match snd (eff s) with RErr _ => SRaised | _ => SRetValue end /\
     Forall (fun c => call_tag c = Some SyncBody) (fst (eff s)) /\
     Forall (fun c => call_tag c = Some FnBody) (fst (eff a)) /\
     invoke DPair b YieldAsynq pos kw bk = a /\ invoke DPair b AsyncCall pos kw bk = a.
@@ -212,7 +250,7 @@ Section Proofs.
     destruct (forms_with_asynq DPair b bk pos kw Hv Ha) as (H1 & H2 & H3 & _ & _ & H6 & _).
     cbv zeta. rewrite H1, H2, H3, H6, !eff_finish, !stat_finish.
     unfold direct_effect, Dispatch.async_effect.
-    repeat split; auto using run_fn_tags, run_fn_as_sync.
+    repeat split; auto using run_fn_tags, own_task_tags, run_fn_as_sync.
   Qed.
 
   (* ---------------------------------------------------------------- T1 *)
@@ -255,7 +293,7 @@ Section Proofs.
     (* ... and calling what they return is the asynchronous call, always through a future *)
     inv ViaGetAsync = inv AsyncCall /\ inv ViaGetAsyncOrSync = inv AsyncCall /\
     eff (inv AsyncCall) = async_effect d (style_of b) bk (prepend (expected_recv b) pos) kw /\
-    stat (inv AsyncCall) = match snd (eff (inv AsyncCall)) with RErr _ => SRaised | ROk _ => SRetFuture end.
+    stat (inv AsyncCall) = match snd (eff (inv AsyncCall)) with RErr _ => SRaised | _ => SRetFuture end.
   Proof.
     intros Hv inv. destruct (classify_table d b Hv) as (Hp & Hr & Hi & Hg & Hh).
     split; [|split; [|split; [|split; [|split; [|split]]]]]; auto.
@@ -274,25 +312,61 @@ Section Proofs.
   (* ---------------------------------------------------------------- no future is ever handed back as a value *)
   Fixpoint no_future (v : rval A) : Prop :=
     match v with VFuture => False | VWrapped w => no_future w | VBody _ _ _ _ _ => True end.
-  Definition res_no_future (r : res A) : Prop := match r with ROk v => no_future v | RErr _ => True end.
+  Definition res_no_future (r : res A) : Prop := match r with ROk v | RResult v => no_future v | RErr _ => True end.
 
-  Lemma run_fn_no_future t s k p kw : res_no_future (snd (run_fn t s k p kw)).
+  Lemma run_fn_no_future t s k act p kw : res_no_future (snd (run_fn t s k act p kw)).
   Proof.
     unfold Dispatch.run_fn.
     destruct s; [| destruct p as [|r rest] | destruct p as [|r rest]]; try exact I;
       match goal with |- context [bind3 A dflt_b dflt_k ?q kw] => destruct (bind3 A dflt_b dflt_k q kw) as [[[a b] c]|] end;
-      try exact I; cbn; destruct (arg_raises A raises a); exact I.
+      try exact I; cbn; destruct (arg_raises A raises a); try exact I; destruct (bret k); exact I.
+  Qed.
+
+  Lemma own_task_no_future st bk pos kw : res_no_future (snd (own_task st bk pos kw)).
+  Proof.
+    pose proof (run_fn_no_future FnBody st bk AOwn pos kw) as H0.
+    unfold Dispatch.own_task, Dispatch.task_frame; cbn [snd].
+    destruct (snd (run_fn FnBody st bk AOwn pos kw)); exact H0.
+  Qed.
+
+  (* lifting a property of the body's outcome through the wrappers of tools.py / make_async_decorator *)
+  Lemma async_effect_lift (P : res A -> Prop) d st bk pos kw :
+    (forall x, P (RErr x)) ->
+    (forall v, P (ROk v) -> P (ROk (VWrapped v))) ->
+    P (snd (own_task st bk pos kw)) -> res_no_escape (snd (own_task st bk pos kw)) ->
+    P (snd (async_effect d st bk pos kw)).
+  Proof.
+    intros He Hw H0 Hn.
+    unfold Dispatch.async_effect. destruct d; try exact H0.
+    - unfold wrap_effect; cbn [snd]. destruct (snd (own_task st bk pos kw)); auto; contradiction.
+    - unfold dup_on_raise.
+      destruct (snd (own_task st bk pos kw)) eqn:E; try (rewrite E; auto; fail).
+      destruct (is_verr e); [cbn|rewrite E]; auto.
+    - unfold cpi_guard. destruct pos as [|[r|a] p]; try exact H0. apply He.
   Qed.
 
   Lemma async_effect_no_future d st bk pos kw : res_no_future (snd (async_effect d st bk pos kw)).
   Proof.
-    pose proof (run_fn_no_future FnBody st bk pos kw) as H0.
-    unfold Dispatch.async_effect. destruct d; try exact H0.
-    - cbn. destruct (snd (run_fn FnBody st bk pos kw)); auto.
-    - unfold dup_on_raise.
-      destruct (snd (run_fn FnBody st bk pos kw)) eqn:E; [rewrite E; auto|].
-      destruct (is_verr e); [cbn|rewrite E]; exact I.
-    - unfold cpi_guard. destruct pos as [|[r|a] p]; try exact H0. exact I.
+    apply async_effect_lift; [intros; exact I | intros v H; exact H | apply own_task_no_future | apply own_task_no_escape].
+  Qed.
+
+  Lemma async_effect_no_escape d st bk pos kw : res_no_escape (snd (async_effect d st bk pos kw)).
+  Proof.
+    apply async_effect_lift; [intros; exact I | intros; exact I | apply own_task_no_escape | apply own_task_no_escape].
+  Qed.
+
+  Lemma sync_body_no_escape st act pos kw :
+    res_no_escape (snd (run_fn SyncBody st (BK BPlain RetReturn) act pos kw)).
+  Proof.
+    unfold Dispatch.run_fn.
+    destruct st; [| destruct pos as [|r rest] | destruct pos as [|r rest]]; try exact I;
+      match goal with |- context [bind3 A dflt_b dflt_k ?q kw] => destruct (bind3 A dflt_b dflt_k q kw) as [[[a b] c]|] end;
+      try exact I; cbn; destruct (arg_raises A raises a); exact I.
+  Qed.
+
+  Lemma direct_effect_no_escape d st bk pos kw : res_no_escape (snd (direct_effect d st bk pos kw)).
+  Proof.
+    unfold direct_effect. destruct d; try apply async_effect_no_escape. apply sync_body_no_escape.
   Qed.
 
   Theorem no_unresolved_future d b f bk pos kw :
@@ -300,7 +374,7 @@ Section Proofs.
   Proof.
     intros Hv.
     assert (Hf : forall s e, res_no_future (snd e) -> res_no_future (snd (finish s e))).
-    { intros s [c [v|x]]; cbn; auto. }
+    { intros s [c [v|x|v]]; cbn; auto. }
     assert (Hd : forall st p, res_no_future (snd (direct_effect d st bk p kw))).
     { intros st p. unfold direct_effect. destruct d; try apply async_effect_no_future. apply run_fn_no_future. }
     destruct (has_async d b) eqn:Ha.
@@ -309,7 +383,137 @@ Section Proofs.
     - destruct (forms_without_asynq d b bk pos kw Hv Ha) as (H1 & H2 & H3 & H4 & H5 & H6 & H7).
       destruct f; rewrite ?H1, ?H2, ?H3, ?H4, ?H5, ?H6, ?H7; try exact I; apply Hf; auto using async_effect_no_future.
   Qed.
+
+  (* ---------------------------------------------------------------- calling context *)
+  (* every form, in closed form: finish s e with e one of the two effects, or the AttributeError *)
+  Lemma invoke_shape d b f bk pos kw :
+    valid d b = true ->
+    invoke d b f pos kw bk = (SNoAsynqAttr, [], RErr E_ATTR) \/
+    exists s e, invoke d b f pos kw bk = finish s e /\
+      (e = async_effect d (style_of b) bk (prepend (expected_recv b) pos) kw \/
+       e = direct_effect d (style_of b) bk (prepend (expected_recv b) pos) kw).
+  Proof.
+    intros Hv. destruct (has_async d b) eqn:Ha.
+    - destruct (forms_with_asynq d b bk pos kw Hv Ha) as (H1 & H2 & H3 & H4 & H5 & H6 & H7).
+      right. destruct f; rewrite ?H1, ?H2, ?H3, ?H4, ?H5, ?H6, ?H7; eauto.
+    - destruct (forms_without_asynq d b bk pos kw Hv Ha) as (H1 & H2 & H3 & H4 & H5 & H6 & H7).
+      destruct f; rewrite ?H1, ?H2, ?H3, ?H4, ?H5, ?H6, ?H7; try (left; reflexivity); right; eauto.
+  Qed.
+
+  Lemma in_ctx_finish s e :
+    res_no_escape (snd e) ->
+    in_ctx A cx (finish s e) = (caller_of cx, finish s e) /\ res_no_escape (snd (finish s e)).
+  Proof. destruct e as [c [v|x|v]]; cbn; intros H; try contradiction; split; auto. Qed.
+
+  (* no AsyncTaskResult ever leaves a calling form: the task the form is executed in is never finished
+     with the callee's value, and at top level no AsyncTaskResult exception comes out *)
+  Theorem caller_intact d b f bk pos kw :
+    valid d b = true ->
+    invoke_ctx d b f pos kw bk = (caller_of cx, invoke d b f pos kw bk) /\
+    res_no_escape (snd (invoke d b f pos kw bk)).
+  Proof.
+    intros Hv. unfold Dispatch.invoke_ctx.
+    destruct (invoke_shape d b f bk pos kw Hv) as [H | (s & e & H & [He | He])]; rewrite H.
+    - split; [reflexivity | exact I].
+    - apply in_ctx_finish. subst e. apply async_effect_no_escape.
+    - apply in_ctx_finish. subst e. apply direct_effect_no_escape.
+  Qed.
+
+  (* every value a form hands back was computed by fn's body inside a task made for fn (the body saw
+     get_active_task() = its own task), or by sync_fn's plain body *)
+  Fixpoint rval_own (bk : bodykind) (v : rval A) : Prop :=
+    match v with
+    | VBody FnBody _ _ _ x => x = extra bk AOwn
+    | VBody SyncBody _ _ _ x => x = 0
+    | VWrapped w => rval_own bk w
+    | VFuture => True
+    end.
+  Definition res_own (bk : bodykind) (r : res A) : Prop :=
+    match r with ROk v | RResult v => rval_own bk v | RErr _ => True end.
+
+  Lemma own_task_own st bk pos kw : res_own bk (snd (own_task st bk pos kw)).
+  Proof.
+    unfold Dispatch.own_task, Dispatch.task_frame, Dispatch.run_fn.
+    destruct st; [| destruct pos as [|r rest] | destruct pos as [|r rest]]; try exact I;
+      match goal with |- context [bind3 A dflt_b dflt_k ?q kw] => destruct (bind3 A dflt_b dflt_k q kw) as [[[a b] c]|] end;
+      try exact I; cbn; destruct (arg_raises A raises a); try exact I; destruct (bret bk); reflexivity.
+  Qed.
+
+  Lemma async_effect_own d st bk pos kw : res_own bk (snd (async_effect d st bk pos kw)).
+  Proof.
+    apply async_effect_lift; [intros; exact I | intros v H; exact H | apply own_task_own | apply own_task_no_escape].
+  Qed.
+
+  Lemma direct_effect_own d st bk pos kw : res_own bk (snd (direct_effect d st bk pos kw)).
+  Proof.
+    unfold direct_effect. destruct d; try apply async_effect_own.
+    unfold Dispatch.run_fn.
+    destruct st; [| destruct pos as [|r rest] | destruct pos as [|r rest]]; try exact I;
+      match goal with |- context [bind3 A dflt_b dflt_k ?q kw] => destruct (bind3 A dflt_b dflt_k q kw) as [[[a b] c]|] end;
+      try exact I; cbn; destruct (arg_raises A raises a); try exact I; reflexivity.
+  Qed.
+
+  Theorem body_in_own_task d b f bk pos kw :
+    valid d b = true -> res_own bk (snd (invoke d b f pos kw bk)).
+  Proof.
+    intros Hv.
+    assert (Hf : forall s e, res_own bk (snd e) -> res_own bk (snd (finish s e))).
+    { intros s [c [v|x|v]]; cbn; auto. }
+    destruct (invoke_shape d b f bk pos kw Hv) as [H | (s & e & H & [He | He])]; rewrite H.
+    - exact I.
+    - apply Hf. subst e. apply async_effect_own.
+    - apply Hf. subst e. apply direct_effect_own.
+  Qed.
+
+  (* result(v); return  =  return v, for every form *)
+  Lemma async_effect_ret d st s pos kw :
+    async_effect d st (BK s RetResult) pos kw = async_effect d st (BK s RetReturn) pos kw.
+  Proof. unfold Dispatch.async_effect. rewrite own_task_ret. reflexivity. Qed.
+
+  Lemma direct_effect_ret d st s pos kw :
+    direct_effect d st (BK s RetResult) pos kw = direct_effect d st (BK s RetReturn) pos kw.
+  Proof. unfold direct_effect. destruct d; auto using async_effect_ret. Qed.
+
+  Theorem result_is_return d b f s pos kw :
+    valid d b = true ->
+    invoke d b f pos kw (BK s RetResult) = invoke d b f pos kw (BK s RetReturn).
+  Proof.
+    intros Hv. destruct (has_async d b) eqn:Ha.
+    - destruct (forms_with_asynq d b (BK s RetResult) pos kw Hv Ha) as (H1 & H2 & H3 & H4 & H5 & H6 & H7).
+      destruct (forms_with_asynq d b (BK s RetReturn) pos kw Hv Ha) as (G1 & G2 & G3 & G4 & G5 & G6 & G7).
+      destruct f; rewrite ?H1, ?H2, ?H3, ?H4, ?H5, ?H6, ?H7, ?G1, ?G2, ?G3, ?G4, ?G5, ?G6, ?G7,
+        ?async_effect_ret, ?direct_effect_ret; reflexivity.
+    - destruct (forms_without_asynq d b (BK s RetResult) pos kw Hv Ha) as (H1 & H2 & H3 & H4 & H5 & H6 & H7).
+      destruct (forms_without_asynq d b (BK s RetReturn) pos kw Hv Ha) as (G1 & G2 & G3 & G4 & G5 & G6 & G7).
+      destruct f; rewrite ?H1, ?H2, ?H3, ?H4, ?H5, ?H6, ?H7, ?G1, ?G2, ?G3, ?G4, ?G5, ?G6, ?G7,
+        ?async_effect_ret, ?direct_effect_ret; reflexivity.
+  Qed.
 End Proofs.
+
+(* the same call gives the same (status, body runs, outcome) wherever it is made: at top level, in a
+   generator task, in a plain-bodied task, in a synchronously called nested task *)
+Lemma direct_effect_ctx A raises db dk cx1 cx2 d st bk pos kw :
+  direct_effect A raises db dk cx1 d st bk pos kw = direct_effect A raises db dk cx2 d st bk pos kw.
+Proof. unfold direct_effect. destruct d; reflexivity. Qed.
+
+Theorem context_independent A raises db dk cx d b f bk pos kw :
+  valid d b = true ->
+  invoke A raises db dk cx d b f pos kw bk = invoke A raises db dk CTop d b f pos kw bk /\
+  invoke_ctx A raises db dk cx d b f pos kw bk = (caller_of cx, invoke A raises db dk CTop d b f pos kw bk).
+Proof.
+  intros Hv.
+  assert (E : invoke A raises db dk cx d b f pos kw bk = invoke A raises db dk CTop d b f pos kw bk).
+  { destruct (has_async d b) eqn:Ha.
+    - destruct (forms_with_asynq A raises db dk cx d b bk pos kw Hv Ha) as (H1 & H2 & H3 & H4 & H5 & H6 & H7).
+      destruct (forms_with_asynq A raises db dk CTop d b bk pos kw Hv Ha) as (G1 & G2 & G3 & G4 & G5 & G6 & G7).
+      destruct f; rewrite ?H1, ?H2, ?H3, ?H4, ?H5, ?H6, ?H7, ?G1, ?G2, ?G3, ?G4, ?G5, ?G6, ?G7,
+        ?(direct_effect_ctx A raises db dk cx CTop); reflexivity.
+    - destruct (forms_without_asynq A raises db dk cx d b bk pos kw Hv Ha) as (H1 & H2 & H3 & H4 & H5 & H6 & H7).
+      destruct (forms_without_asynq A raises db dk CTop d b bk pos kw Hv Ha) as (G1 & G2 & G3 & G4 & G5 & G6 & G7).
+      destruct f; rewrite ?H1, ?H2, ?H3, ?H4, ?H5, ?H6, ?H7, ?G1, ?G2, ?G3, ?G4, ?G5, ?G6, ?G7; reflexivity. }
+  split; [exact E|].
+  rewrite <- E. apply caller_intact. exact Hv.
+Qed.
 
 (* the case analysis really covers every cell: the enumerations used by the correspondence are complete *)
 Lemma all_decos_complete d : In d all_decos.
@@ -318,6 +522,10 @@ Lemma all_bindings_complete b : In b all_bindings.
 Proof. destruct b; cbn; tauto. Qed.
 Lemma all_forms_complete f : In f all_forms.
 Proof. destruct f; cbn; tauto. Qed.
+Lemma all_bodykinds_complete bk : In bk all_bodykinds.
+Proof. destruct bk as [[] []]; cbn; tauto. Qed.
+Lemma all_ctxs_complete c : In c all_ctxs.
+Proof. destruct c; cbn; tauto. Qed.
 
 (* 74 valid decorator x binding cells, swept: the argument-free part of the classification *)
 Definition cell_ok (d : deco) (b : binding) : bool :=
@@ -336,11 +544,21 @@ Proof. split; vm_compute; reflexivity. Qed.
 (* non-vacuity: the hypotheses are satisfiable and the conclusions talk about real runs *)
 Example agree_nonvacuous :
   valid DPair BCmInst = true /\ has_async DPair BCmInst = true /\
-  invoke Z (fun z => z =? 99) 20 30 DPair BCmInst AsynqValue [AVal 1] [(Kk, AVal 3)] BBatch =
+  invoke Z (fun z => z =? 99) 20 30 CGen DPair BCmInst AsynqValue [AVal 1] [(Kk, AVal 3)] (BK BBatch RetResult) =
     (SRetFuture, [CBody FnBody (Some (AObj RCls)) (AVal 1) (AVal 20) (AVal 3)], ROk (VBody FnBody (AVal 1) (AVal 20) (AVal 3) 7)) /\
-  invoke Z (fun z => z =? 99) 20 30 DPair BCmInst Sync [AVal 1] [(Kk, AVal 3)] BBatch =
+  invoke Z (fun z => z =? 99) 20 30 CGen DPair BCmInst Sync [AVal 1] [(Kk, AVal 3)] (BK BBatch RetResult) =
     (SRetValue, [CBody SyncBody (Some (AObj RCls)) (AVal 1) (AVal 20) (AVal 3)], ROk (VBody SyncBody (AVal 1) (AVal 20) (AVal 3) 0)) /\
   valid DPure BSub = true /\ has_async DPure BSub = false /\
-  invoke Z (fun z => z =? 99) 20 30 DPure BSub AsyncCall [AVal 99] [] BPlain =
-    (SRaised, [CBody FnBody (Some (AObj RSubObj)) (AVal 99) (AVal 20) (AVal 30)], RErr 901).
+  invoke Z (fun z => z =? 99) 20 30 CTop DPure BSub AsyncCall [AVal 99] [] (BK BPlain RetReturn) =
+    (SRaised, [CBody FnBody (Some (AObj RSubObj)) (AVal 99) (AVal 20) (AVal 30)], RErr 901) /\
+  (* a synchronous call from inside a plain-bodied task, body = plain function ending in result(v)
+     that looks at get_active_task(): own task (8), value delivered, calling task goes on *)
+  invoke_ctx Z (fun z => z =? 99) 20 30 CPlain DAsynq BInst Sync [AVal 1] [] (BK BPlainOwn RetResult) =
+    (CallerOwn, (SRetValue, [CBody FnBody (Some (AObj RObj)) (AVal 1) (AVal 20) (AVal 30)],
+                 ROk (VBody FnBody (AVal 1) (AVal 20) (AVal 30) 8))) /\
+  (* in_ctx is not vacuous: an escaping AsyncTaskResult would finish the calling task *)
+  in_ctx Z CGen (SRetValue, [], RResult (VBody FnBody (AVal 1) (AVal 20) (AVal 30) 9)) =
+    (CallerHijacked, (SRetValue, [], ROk (VBody FnBody (AVal 1) (AVal 20) (AVal 30) 9))) /\
+  in_ctx Z CTop (SRetValue, [], RResult (VBody FnBody (AVal 1) (AVal 20) (AVal 30) 10)) =
+    (CallerNone, (SRaised, [], RErr E_TASKRESULT)).
 Proof. repeat split. Qed.
